@@ -8,6 +8,7 @@ import (
 	"io"
 	"net"
 	"runtime"
+	"strings"
 	"sync"
 	"sync/atomic"
 	"testing"
@@ -74,6 +75,9 @@ type concCase struct {
 	// ReadTimeoutMs: the client's total read timeout (0: 2 s). It bounds the time a call may spend READING its reply; the time a call
 	// spends waiting for its turn behind other callers is not part of it.
 	ReadTimeoutMs int `json:"read_timeout_ms,omitempty"`
+	// WriteTimeoutMs (network kinds): the client's write timeout (0: 1 s). It bounds the time the WRITE of a request may take, counted
+	// from the moment the call has the connection to itself; the transport refuses a write that starts after the deadline it was given.
+	WriteTimeoutMs int `json:"write_timeout_ms,omitempty"`
 	// Age: before the goroutines start, the client makes this many ordinary request calls one after the other (a client that has been
 	// in use for a long time: ticket and sequence counters have advanced, maybe wrapped)
 	Age int `json:"age,omitempty"`
@@ -199,7 +203,11 @@ func runConc(c concCase) harness.Result {
 		do, closeFn = sc.Do, sc.Close
 		connectFn = func() error { return nil }
 	} else {
-		conf := modbus.ClientConfig{ReadTimeout: readTimeout, WriteTimeout: time.Second,
+		writeTimeout := time.Second
+		if c.WriteTimeoutMs > 0 {
+			writeTimeout = time.Duration(c.WriteTimeoutMs) * time.Millisecond
+		}
+		conf := modbus.ClientConfig{ReadTimeout: readTimeout, WriteTimeout: writeTimeout,
 			DialContextFunc: func(ctx context.Context, address string) (net.Conn, error) {
 				// a dial function that does not return early when the context ends (a wrapper around net.DialTimeout or tls.Dial)
 				if d, ok := ctx.Value(slowDialKey{}).(time.Duration); ok {
@@ -584,15 +592,20 @@ func TestSerialCancelWhileReading(t *testing.T) {
 
 // TestQueuedCallersKeepTheirTimeout: five callers queue on one network client whose device takes 100 ms per reply; the client's read
 // timeout is 400 ms. Every exchange is well inside the timeout, so every caller must get its own reply - however long it waited for
-// its turn. (A failure is reported only if it repeats three times: the scenario depends on real time.)
+// its turn. The same with a write timeout of 80 ms, shorter than the wait: the time a caller spends queueing is not part of its write
+// timeout either. (A failure is reported only if it repeats three times: the scenario depends on real time.)
 func TestQueuedCallersKeepTheirTimeout(t *testing.T) {
 	idx := 0
-	for _, kind := range []string{"tcp", "rtu-net"} {
+	for _, kind := range []string{"tcp", "rtu-net", "tcp+write-timeout", "rtu-net+write-timeout"} {
 		idx++
 		if !harness.Mine(idx) {
 			continue
 		}
 		c := concCase{Kind: kind, Procs: 16, DevSeed: uint64(idx) + harness.Seed(), ReadTimeoutMs: 400}
+		if k, found := strings.CutSuffix(kind, "+write-timeout"); found {
+			// the write timeout (80 ms) is shorter than the time a caller waits for its turn: it must not have started by then
+			c.Kind, c.WriteTimeoutMs = k, 80
+		}
 		for w := 0; w < 5; w++ {
 			c.Workers = append(c.Workers, []call{{FC: 3, Plan: uint64(w), DelayUs: 100000}})
 		}
